@@ -32,7 +32,8 @@ def targets(only):
         out = [t for t in out if t[0] in only]
     match = os.environ.get("SELFTEST_MATCH")
     if match:
-        out = [t for t in out if match in t[2]]
+        import re
+        out = [t for t in out if re.search(match, t[2])]
     return out
 
 
